@@ -805,7 +805,11 @@ func (x *Exec) makeInterface(fr *Frame, st *State, v *ssa.MakeInterface) {
 		payload = Term{app(box, a.T), "Int"}
 		x.assume(Term{app(">", payload, intLit(0)), "Bool"})
 	}
-	x.setVal(fr, v, Val{T: Term{app("mk_iface", x.typeID(t), payload), "Iface"}, Typ: v.Type()})
+	dyn := a
+	dyn.Typ = t
+	iv := Val{T: Term{app("mk_iface", x.typeID(t), payload), "Iface"}, Typ: v.Type(), Dyn: &dyn}
+	x.setVal(fr, v, iv)
+	x.linkObservers(st, fr.vals[v], t, a)
 }
 
 func (x *Exec) typeAssert(fr *Frame, st *State, v *ssa.TypeAssert) {
